@@ -118,6 +118,7 @@ where
                                 }
                             } else if char == "%" {
                                 // self.select_other_charset(yield_!(None));
+                                let _code = co.yield_(None);
                             } else if "()".contains(&char) {
                                 let _code = co.yield_(None);
                                 if parser_state_cloned.lock().unwrap().use_utf8 {
@@ -241,6 +242,7 @@ where
                                 }
                             } else if char == "%" {
                                 // self.select_other_charset(yield_!(None));
+                                let _code = co.yield_(None);
                             } else if "()".contains(&char) {
                                 let _code = co.yield_(None);
                                 if parser_state_cloned.lock().unwrap().use_utf8 {
